@@ -152,6 +152,10 @@ func (w *World) loadContracts(dirs []string) error {
 		}
 		pi.cf = cf
 		for k := range cf.Contracts {
+			// "pkgpath.Iface.Method" keys are interface contracts: ifaceContract honours them from any contract file
+			if last := k[strings.LastIndex(k, "/")+1:]; !strings.HasPrefix(k, "(") && strings.Count(last, ".") == 2 {
+				continue
+			}
 			if strings.Contains(k, "/") && strings.HasPrefix(strings.TrimLeft(k, "(*"), repoModule+"/") {
 				fmt.Fprintf(os.Stderr, "warning: %s: contract key %q names a function of this repository by its full name: such keys are only honoured for library functions and are IGNORED here; put the contract in the contract file of the function's own package\n", found, k)
 			}
